@@ -344,7 +344,11 @@ func (r *DeviceLocal) ProcessCmd(datagram model.DatagramType, remoteDevice api.D
 
 		// Don't send error responses for incoming result messages
 		if message.CmdClassifier != model.CmdClassifierTypeResult {
-			_ = remoteFeature.Device().Sender().ResultError(message.RequestHeader, destAddr, model.NewErrorType(model.ErrorNumberTypeDestinationUnknown, errorMessage))
+			// the sender of the result is this device, whatever the
+			// destination address of the message contains as device
+			senderAddr := *destAddr
+			senderAddr.Device = r.address
+			_ = remoteFeature.Device().Sender().ResultError(message.RequestHeader, &senderAddr, model.NewErrorType(model.ErrorNumberTypeDestinationUnknown, errorMessage))
 		}
 
 		return errors.New(errorMessage)
